@@ -1,7 +1,7 @@
 (* C14 -- facts about the concrete tables of Gen/GenCodegen.v: witnesses for the statement that is still false of the
    formatter (floats), and the former counterexamples (repaired in /repo) as regression examples. *)
 From Coq Require Import List NArith ZArith Bool Arith Lia.
-From PV Require Import Lib.ListX Model.FmtLit Model.FmtPratt Model.Fmt Model.FmtStmt Model.FmtInst Proofs.FmtPrattProofs Proofs.FmtProofs Proofs.FmtStmtProofs Proofs.FmtLitProofs.
+From PV Require Import Lib.ListX Model.FmtLit Model.FmtPratt Model.Fmt Model.FmtTy Model.FmtStmt Model.FmtInst Proofs.FmtPrattProofs Proofs.FmtProofs Proofs.FmtStmtProofs Proofs.FmtLitProofs.
 Import ListNotations.
 Local Open Scope N_scope.
 
@@ -95,3 +95,17 @@ Qed.
 (* since commit e3202e5 the aliased pipeline is written as one aliased expression and parses back *)
 Lemma alias_pipeline_roundtrips : parse_prog_prql 40 (fmt_prog_toks alias_pipeline_witness) = Some alias_pipeline_witness.
 Proof. vm_compute. reflexivity. Qed.
+
+(* ---- type expressions:  {a = int, b = [text], func int m.ty -> bool, c = *, ..}   func func int -> int -> bool   [{..float}] *)
+Definition w_int : str := [105;110;116].
+Definition w_text : str := [116;101;120;116].
+Definition w_bool : str := [98;111;111;108].
+Definition w_float : str := [102;108;111;97;116].
+Definition type_witnesses : list ty :=
+  [TyTuple [TyField (Some [97]) (TyPrim w_int); TyField (Some [98]) (TyArr (TyPrim w_text));
+            TyField None (TyFunc [TyPrim w_int; TyIdent [[109]; [116;121]]] (TyPrim w_bool)); TyStar (Some [99]); TyWild0];
+   TyFunc [TyFunc [TyPrim w_int] (TyPrim w_int)] (TyPrim w_bool);
+   TyArr (TyTuple [TyWild (TyPrim w_float)]);
+   TyFunc [] TyFunc0; TyArr0; TyTuple []].
+(* a function type whose parameter ends in a bare `func` is not producible: its text is read differently *)
+Definition type_nonwitness : ty := TyFunc [TyFunc0] (TyPrim w_int).
